@@ -352,3 +352,228 @@ def shape_class(r, c):
     if 8 * r < c:
         return "verywide"
     return "square" if r == c else ("tall" if r > c else "wide")
+
+
+# ============================================================================ trait-directed generation
+class TraitGen(TreeGen):
+    """Square operators with a property guaranteed by construction.
+    traits: 'pd' (Hermitian positive definite), 'herm', 'unitary', 'inv' (invertible, well conditioned), 'gen'.
+    declare: probability weight with which leaves are wrapped in a (true) annotation."""
+    def __init__(self, draw, declare=True, **kw):
+        super().__init__(draw, **kw)
+        self.declare = declare
+
+    # ---------------------------------------------------------------- helpers
+    def _decl(self, node, options):
+        """Optionally wrap node in one of the (true) declarations in options."""
+        if not self.declare or "ann" in self.avoid:
+            return node
+        a = self.pick([None] + list(options))
+        return node if a is None else {"k": "ann", "a": a, "ch": [node]}
+
+    def _dense_like(self, M, dt, kinds=("dense", "matmat", "lazify")):
+        kinds = [k for k in kinds if self.ok(k)] or ["dense"]
+        return {"k": self.pick(kinds), "a": enc(np.asarray(M).astype(NPDT[dt]))}
+
+    def _split2(self, n):
+        ds = [d for d in divisors(n) if 1 < d < n]
+        return self.pick(ds) if ds else None
+
+    def _bd_parts(self, n):
+        """sizes and multiplicities with sum m_i s_i = n."""
+        rs, _, mult = self.bd_layout(n, n)
+        # bd_layout fills rows and cols independently; for square blocks redo columns = rows
+        return rs, mult
+
+    def sq(self, n, trait, depth):
+        return getattr(self, "t_" + trait)(n, depth)
+
+    # ---------------------------------------------------------------- positive definite
+    def pd_matrix(self, n, dt):
+        B = self.array((n, n), dt, -2, 2)
+        return B @ B.conj().T + self.integer(1, 3) * np.eye(n)
+
+    def t_pd(self, n, d):
+        opts = ["dense", "diag", "smul", "eye"]
+        if d > 0:
+            opts += ["scale", "sum", "TH", "bd", "gram", "gram"]
+            if self._split2(n):
+                opts += ["kron", "kronsum"]
+        k = self.pick([o for o in opts if self.ok(o if o not in ("TH", "gram") else "T")])
+        dt = self.dtype()
+        if k == "dense":
+            return self._decl(self._dense_like(self.pd_matrix(n, dt), dt), ["PSD", "SelfAdjoint"])
+        if k == "diag":
+            return self._decl({"k": "diag", "d": enc(self.ints(n, 1, 4).astype(NPDT[dt]))}, ["PSD", "SelfAdjoint"])
+        if k == "smul":
+            return self._decl({"k": "smul", "c": {"t": "float", "v": float(self.integer(1, 4))}, "n": n, "dt": dt}, ["PSD", "SelfAdjoint"])
+        if k == "eye":
+            return {"k": "eye", "n": n, "dt": dt}
+        if k == "scale":
+            return {"k": "scale", "c": {"t": self.pick(["int", "float", "f8"]), "v": self.integer(1, 3)}, "side": self.pick("lr"), "ch": [self.t_pd(n, d - 1)]}
+        if k == "sum":
+            return {"k": "sum", "via": "op", "ch": [self.t_pd(n, d - 1), self.t_pd(n, d - 1)]}
+        if k == "TH":
+            return {"k": self.pick(["T", "H"]), "ch": [self.t_pd(n, d - 1)]}
+        if k == "bd":
+            rs, mult = self._bd_parts(n)
+            return {"k": "bd", "ch": [self.t_pd(s, d - 1) for s in rs], "mult": mult}
+        if k == "kron":
+            a = self._split2(n)
+            return {"k": "kron", "via": self.pick(["fn", "ctor"]), "ch": [self.t_pd(a, d - 1), self.t_pd(n // a, d - 1)]}
+        if k == "kronsum":
+            a = self._split2(n)
+            return {"k": "kronsum", "via": self.pick(["fn", "ctor"]), "ch": [self.t_pd(a, d - 1), self.t_pd(n // a, d - 1)]}
+        if k == "gram":  # X^H X with X invertible: PD by construction (the same object on both sides)
+            return {"k": "gram", "form": self.pick(["HA", "AH"]), "ch": [self.t_inv(n, d - 1)]}
+        raise AssertionError(k)
+
+    # ---------------------------------------------------------------- hermitian (possibly indefinite)
+    def t_herm(self, n, d):
+        opts = ["dense", "diag", "tridiag", "hess", "pd", "smul"]
+        if d > 0:
+            opts += ["scale", "sum", "TH", "bd", "neg"]
+            if self._split2(n):
+                opts += ["kron", "kronsum"]
+        k = self.pick(opts)
+        dt = self.dtype()
+        if k == "dense":
+            B = self.array((n, n), dt, -2, 2)
+            return self._decl(self._dense_like(B + B.conj().T, dt), ["SelfAdjoint"])
+        if k == "diag":
+            return self._decl({"k": "diag", "d": enc(self.ints(n, -3, 3).astype(NPDT[dt]))}, ["SelfAdjoint"])
+        if k == "smul":
+            return self._decl({"k": "smul", "c": {"t": "float", "v": float(self.integer(-3, 3))}, "n": n, "dt": dt}, ["SelfAdjoint"])
+        if k == "tridiag":
+            al = self.array((n - 1, ), dt)
+            return self._decl({"k": "tridiag", "al": enc(al), "be": enc(self.ints(n, -3, 3).astype(NPDT[dt])), "ga": enc(al.conj())}, ["SelfAdjoint"])
+        if k == "hess":
+            return self.k_hess(n, n)
+        if k == "pd":
+            return self.t_pd(n, d)
+        if k == "scale":
+            return {"k": "scale", "c": {"t": self.pick(["int", "float"]), "v": self.pick([-2, -1, 1, 2, 3])}, "side": self.pick("lr"), "ch": [self.t_herm(n, d - 1)]}
+        if k == "neg":
+            return {"k": "neg", "ch": [self.t_herm(n, d - 1)]}
+        if k == "sum":
+            return {"k": "sum", "via": "op", "ch": [self.t_herm(n, d - 1), self.t_herm(n, d - 1)]}
+        if k == "TH":
+            return {"k": self.pick(["T", "H"]), "ch": [self.t_herm(n, d - 1)]}
+        if k == "bd":
+            rs, mult = self._bd_parts(n)
+            return {"k": "bd", "ch": [self.t_herm(s, d - 1) for s in rs], "mult": mult}
+        a = self._split2(n)
+        return {"k": k, "via": self.pick(["fn", "ctor"]), "ch": [self.t_herm(a, d - 1), self.t_herm(n // a, d - 1)]}
+
+    # ---------------------------------------------------------------- unitary
+    def t_unitary(self, n, d):
+        opts = ["perm", "eye", "signed", "hh", "fft"]
+        if d > 0:
+            opts += ["prod", "TH", "bd", "scale"]
+            if self._split2(n):
+                opts += ["kron"]
+        k = self.pick([o for o in opts if self.ok({"signed": "dense", "TH": "T"}.get(o, o))])
+        dt = self.dtype()
+        if k == "perm":
+            return self.k_perm(n, n)
+        if k == "eye":
+            return {"k": "eye", "n": n, "dt": dt}
+        if k == "fft":
+            return self.k_fft(n, n)
+        if k == "hh":
+            v = np.zeros((n, 1))
+            v[self.integer(0, n - 1), 0] = 1.0
+            return self._decl({"k": "hh", "v": enc(v.astype(NPDT[dt])), "beta": 2.0}, ["Unitary", "Stiefel"])
+        if k == "signed":
+            p = list(self.draw(st.permutations(list(range(n)))))
+            M = np.zeros((n, n), dtype=np.complex128)
+            ph = [1, -1, 1j, -1j] if dt in CPLX else [1, -1]
+            M[np.arange(n), p] = [self.pick(ph) for _ in range(n)]
+            node = self._dense_like(M, dt)
+            return {"k": "ann", "a": self.pick(["Unitary", "Unitary", "Stiefel"]), "ch": [node]} if self.declare else node
+        if k == "prod":
+            return {"k": "prod", "via": self.pick(["op", "ctor"]), "ch": [self.t_unitary(n, d - 1), self.t_unitary(n, d - 1)]}
+        if k == "TH":
+            return {"k": self.pick(["T", "H"]), "ch": [self.t_unitary(n, d - 1)]}
+        if k == "bd":
+            rs, mult = self._bd_parts(n)
+            return {"k": "bd", "ch": [self.t_unitary(s, d - 1) for s in rs], "mult": mult}
+        if k == "scale":
+            return {"k": "scale", "c": {"t": "int", "v": self.pick([1, -1])}, "side": self.pick("lr"), "ch": [self.t_unitary(n, d - 1)]}
+        a = self._split2(n)
+        return {"k": "kron", "via": self.pick(["fn", "ctor"]), "ch": [self.t_unitary(a, d - 1), self.t_unitary(n // a, d - 1)]}
+
+    # ---------------------------------------------------------------- invertible, well conditioned
+    def dd_matrix(self, n, dt, lo=-2, hi=2):
+        a = self.array((n, n), dt, lo, hi)
+        sg = 1 - 2 * self.ints(n, 0, 1)
+        a[np.arange(n), np.arange(n)] = (np.abs(a).sum(1) - np.abs(np.diag(a)) + self.ints(n, 1, 2)) * sg
+        return a
+
+    def t_inv(self, n, d):
+        opts = ["dense", "tri", "diag", "smul", "perm", "eye", "pd", "unitary", "tridiag"]
+        if d > 0:
+            opts += ["prod", "prod", "TH", "bd", "bd", "scale", "neg"]
+            if self._split2(n):
+                opts += ["kron", "kron"]
+        k = self.pick([o for o in opts if self.ok({"TH": "T", "pd": "dense", "unitary": "perm"}.get(o, o))])
+        dt = self.dtype()
+        if k == "dense":
+            return self._dense_like(self.dd_matrix(n, dt), dt)
+        if k == "tri":
+            lower = self.boolean()
+            a = self.dd_matrix(n, dt, -1, 1)
+            return {"k": "tri", "a": enc(np.tril(a) if lower else np.triu(a)), "lower": lower}
+        if k == "diag":
+            v = self.ints(n, 1, 4) * (1 - 2 * self.ints(n, 0, 1))
+            v = v.astype(NPDT[dt])
+            if dt in CPLX:
+                v = v * np.array([self.pick([1, 1j, -1j, 1]) for _ in range(n)])
+            return {"k": "diag", "d": enc(v.astype(NPDT[dt]))}
+        if k == "smul":
+            c = self.scalar(allow_zero=False, allow_complex=dt in CPLX, types=["int", "float", "complex"])
+            if complex(*(c["v"] if isinstance(c["v"], list) else (c["v"], 0))) == 0:
+                c = {"t": "float", "v": 2.0}
+            return {"k": "smul", "c": c, "n": n, "dt": dt}
+        if k == "perm":
+            return self.k_perm(n, n)
+        if k == "eye":
+            return {"k": "eye", "n": n, "dt": dt}
+        if k == "tridiag":
+            al, ga = self.array((n - 1, ), dt, -1, 1), self.array((n - 1, ), dt, -1, 1)
+            be = (self.ints(n, 3, 5) * (1 - 2 * self.ints(n, 0, 1))).astype(NPDT[dt])
+            return {"k": "tridiag", "al": enc(al), "be": enc(be), "ga": enc(ga)}
+        if k == "pd":
+            return self.t_pd(n, d)
+        if k == "unitary":
+            return self.t_unitary(n, d)
+        if k == "prod":
+            return {"k": "prod", "via": self.pick(["op", "ctor"]), "ch": [self.t_inv(n, d - 1), self.t_inv(n, d - 1)]}
+        if k == "TH":
+            return {"k": self.pick(["T", "H"]), "ch": [self.t_inv(n, d - 1)]}
+        if k == "neg":
+            return {"k": "neg", "ch": [self.t_inv(n, d - 1)]}
+        if k == "bd":
+            rs, mult = self._bd_parts(n)
+            return {"k": "bd", "ch": [self.t_inv(s, d - 1) for s in rs], "mult": mult}
+        if k == "scale":
+            c = self.scalar(allow_zero=False)
+            if complex(*(c["v"] if isinstance(c["v"], list) else (c["v"], 0))) == 0:
+                c = {"t": "int", "v": -2}
+            return {"k": "scale", "c": c, "side": self.pick("lr"), "ch": [self.t_inv(n, d - 1)]}
+        a = self._split2(n)
+        return {"k": "kron", "via": self.pick(["fn", "ctor"]), "ch": [self.t_inv(a, d - 1), self.t_inv(n // a, d - 1)]}
+
+    def t_gen(self, n, d):
+        return self.op(n, n, d)
+
+    # ---------------------------------------------------------------- n x k with orthonormal columns
+    def stiefel(self, n, k):
+        cols = self.draw(st.lists(st.integers(0, n - 1), min_size=k, max_size=k, unique=True))
+        dt = self.dtype()
+        M = np.zeros((n, k), dtype=np.complex128)
+        ph = [1, -1, 1j, -1j] if dt in CPLX else [1, -1]
+        for j, i in enumerate(cols):
+            M[i, j] = self.pick(ph)
+        node = self._dense_like(M, dt)
+        return {"k": "ann", "a": "Stiefel", "ch": [node]}
